@@ -40,10 +40,23 @@ func fieldsOf(s *spec.Spec) []string {
 func DriverFile(s0 *spec.Spec, v Variant) string {
 	s := s0.Clone()
 	s.Fields = fieldsOf(s0)
+	// every action is  rec(n, <closure assigning $$>) : the driver records the
+	// reduction and runs the assignment - normally at once; when a nested
+	// parser run is scheduled at this reduction, after the nested run and, on
+	// the global parser, before PopContex() (user code that combines $n with
+	// the nested result before restoring the outer parser)
 	for i := range s.Rules {
-		body := fmt.Sprintf("rec(%d)", i+1)
-		if t := s.Rules[i].Sem.Text(); t != "" {
-			body += "; " + t
+		t := s.Rules[i].Sem.Text()
+		var body string
+		switch {
+		case t == "" && v.IsGo():
+			body = fmt.Sprintf("rec(%d, nil)", i+1)
+		case t == "":
+			body = fmt.Sprintf("rec(%d, null)", i+1)
+		case v.IsGo():
+			body = fmt.Sprintf("rec(%d, func() { %s })", i+1, t)
+		default:
+			body = fmt.Sprintf("rec(%d, () => { %s })", i+1, t)
 		}
 		s.Rules[i].Action = "{ " + body + " }"
 	}
@@ -138,8 +151,11 @@ var (
 	vNestRes   *vRes
 )
 
-func rec(n int) {
+func rec(n int, f func()) {
 	if vParallel {
+		if f != nil {
+			f()
+		}
 		return
 	}
 	vTrace = append(vTrace, n)
@@ -154,14 +170,23 @@ func rec(n int) {
 		if IsTrace {
 			fmt.Println("@@NEST-BEGIN")
 		}
-		r := vNested(vNestIn)
-		if IsTrace {
-			fmt.Println("@@NEST-END")
-		}
+		r := vNested(vNestIn, func() {
+			// still inside the nested region: the outer action's operands must be intact
+			if IsTrace {
+				fmt.Println("@@NEST-END")
+			}
+			if f != nil {
+				f()
+			}
+		})
 		r.Trace = append([]int{}, vTrace...)
 		vNestRes = &r
 		vTrace, vSteps = saveT, saveS
 		vNestDepth--
+		return
+	}
+	if f != nil {
+		f()
 	}
 }
 
@@ -311,13 +336,17 @@ func main() {
 const goDriverGlobal = `
 // vNested: a whole parse started from inside an action of the running parse,
 // bracketed by PushContex/PopContex as the template provides for.
-func vNested(in []int) vRes {
+func vNested(in []int, then func()) vRes {
 	PushContex()
 	defer PopContex()
-	return vRun1(200, func() *ValType {
+	r := vRun1(200, func() *ValType {
 		ParserInit()
 		return Parser(vInput(200, in))
 	})
+	saveT := vTrace
+	then() // evaluated before PopContex()
+	vTrace = saveT
+	return r
 }
 
 func vParse(op vOp) vRes {
@@ -418,11 +447,13 @@ func vGetCtx(id int, fresh bool) *Context {
 }
 
 // vNested: a whole parse on another context, started from inside an action.
-func vNested(in []int) vRes {
+func vNested(in []int, then func()) vRes {
 	c := MakeParserContext()
-	return vRun1(200, func() *ValType {
+	r := vRun1(200, func() *ValType {
 		return c.Parser(vInput(200, in))
 	})
+	then()
+	return r
 }
 
 func vParse(op vOp) vRes {
@@ -644,10 +675,11 @@ var vFetched = 0
 var vErrs :string[] = []
 const vLimit = 20000
 
-function rec(n :number) {
+function rec(n :number, f :any) {
 	vTrace.push(n)
 	vSteps++
 	if (vSteps > vLimit) { throw "vlimit" }
+	if (f) { f() }
 }
 
 function vMaxCode() :number {
